@@ -239,6 +239,12 @@ def classify(stage: str, case: dict, opts: dict, mprog: list[str] | None, mres: 
         if f["collide"] and opts["skip_initializers"] and mres == "ERR:RuntimeError":
             return "D14"
         return None
+    if mprog and not isM:
+        sig = next((ln for ln in mprog if ln.startswith("sig ")), None)
+        if sig:
+            a, b = sig[sig.index("(") + 1 : -1].split("|")
+            if set(x for x in a.split(",") if x) & set(x for x in b.split(",") if x):
+                return "C13-ATTR-INPUT-CLASH"
     if stage == "compile":
         # (C13-SKIP-INDENT was here: fixed by 4af3eb7 — indented text without make_model is a violation again)
         if f["collide"]:
@@ -281,10 +287,10 @@ def case_of_function(fp: onnx.FunctionProto, in_types, out_types, feeds, meta: d
     return {"kind": "F", "proto": fp, "feeds": feeds, "meta": meta, "in_types": in_types, "out_types": out_types}
 
 
-def wrap_function(fp: onnx.FunctionProto, in_types, out_types) -> onnx.ModelProto:
+def wrap_function(fp: onnx.FunctionProto, in_types, out_types, call_attrs=None) -> onnx.ModelProto:
     ins = [H.make_tensor_value_info(f"in{i}", t, s) for i, (t, s) in enumerate(in_types)]
     outs = [H.make_tensor_value_info(f"out{i}", t, s) for i, (t, s) in enumerate(out_types)]
-    node = H.make_node(fp.name, [i.name for i in ins], [o.name for o in outs], domain=fp.domain)
+    node = H.make_node(fp.name, [i.name for i in ins], [o.name for o in outs], domain=fp.domain, **(call_attrs or {}))
     g = H.make_graph([node], "wrapper", ins, outs)
     ops = {i.domain: i.version for i in fp.opset_import}
     ops.setdefault(fp.domain, 1)
@@ -303,6 +309,7 @@ def case_json(case: dict, opts: dict | None) -> dict:
     if case["kind"] == "F":
         out["in_types"] = case["in_types"]
         out["out_types"] = case["out_types"]
+        out["call_attrs"] = case.get("call_attrs")
     return out
 
 
@@ -315,6 +322,7 @@ def case_from_json(j: dict) -> dict:
     if j["kind"] == "F":
         c["in_types"] = [tuple(x) for x in j["in_types"]]
         c["out_types"] = [tuple(x) for x in j["out_types"]]
+        c["call_attrs"] = j.get("call_attrs")
     return c
 
 
@@ -461,8 +469,8 @@ def _oracle(ctx, case, opts, src, exc, mprog, mres):
             else:
                 fns = [v for v in mod.__dict__.values() if isinstance(v, onnxscript.OnnxFunction)]
                 fp2 = fns[-1].to_function_proto()
-                m1 = wrap_function(proto, case["in_types"], case["out_types"])
-                m2 = wrap_function(fp2, case["in_types"], case["out_types"])
+                m1 = wrap_function(proto, case["in_types"], case["out_types"], case.get("call_attrs"))
+                m2 = wrap_function(fp2, case["in_types"], case["out_types"], case.get("call_attrs"))
         except BaseException as e:  # noqa: BLE001
             return fail(ctx, case, opts, "to_model", f"to_model_proto raised {type(e).__name__}: {str(e)[:200]}", mprog, mres)
         st["converted_back"] += 1
@@ -550,35 +558,75 @@ def gen_scripts(rng, n: int) -> list[dict]:
     return cases, len(err)
 
 
+FLOAT_ATTR_OPS = ["Elu", "LeakyRelu", "ThresholdedRelu", "Celu"]
+
+
 def gen_attr_functions(rng, n: int) -> list[dict]:
-    """FunctionProtos with attribute parameters, incl. value names equal to attribute names."""
+    """FunctionProtos with attribute parameters.  Value names are drawn from a set closed under the conflict
+    handler's candidate generation (`<attr>`, `<attr>_0`, `<attr>_1`, ...; `v<k>` for rename=True), every value
+    feeds the result, and the numeric oracle runs through a wrapper node that passes attribute values."""
     cases = []
     for i in range(n):
-        nm = GEN.Namer(rng, rng.choice(["clean", "odd"]))
-        x = nm.new()
-        attrs = rng.sample(["alpha", "axis", "beta", "k"], rng.choice([1, 2]))
-        clash = rng.random() < 0.6
-        vals = []
+        attr_pool = rng.choice([["alpha", "beta"], ["alpha", "v1"], ["v2", "beta"], ["alpha", "alpha_0"], ["k", "v3"]])
+        attrs = attr_pool[: rng.choice([1, 2, 2])]
+        names = []
+        for a in attrs:
+            names += [a, a + "_0", a + "_1", a + "_0_0"]
+        names += ["v1", "v2", "v4", "X", "t.0", "t_0", "y1", "y2", "y3"] + [f"w{k}" for k in range(24)]
+        clashy = rng.random() < 0.8
+        nm_used: set = set()
+
+        def fresh():
+            pool = [x for x in names if x not in nm_used]
+            if clashy and rng.random() < 0.7:
+                cand = [x for x in pool if any(x.startswith(a) for a in attrs)] or pool
+            else:
+                cand = [x for x in pool if not any(x == a or x.startswith(a + "_") for a in attrs) and x not in ("t.0", "t_0")] or pool
+            x = rng.choice(cand)
+            nm_used.add(x)
+            return x
+
+        x = fresh() if rng.random() < 0.3 else "X"
+        nm_used.add(x)
+        vals = [x]
         nodes = []
-        cur = x
-        for j, a in enumerate(attrs):
-            o = a if clash and j == 0 else nm.new()
-            if clash and j == 1 and rng.random() < 0.5:
-                o = attrs[0] + "_0"
-            n = H.make_node("Elu" if a in ("alpha", "beta") else "Identity", [cur], [o])
-            if a in ("alpha", "beta"):
-                at = H.make_attribute("alpha", 1.0)
-                at.ClearField("f")
-                at.ref_attr_name = a
+        for j in range(rng.choice([2, 3, 4])):
+            o = fresh()
+            r = rng.random()
+            if r < 0.45:
+                a = rng.choice(attrs)
+                nd = H.make_node(rng.choice(FLOAT_ATTR_OPS), [rng.choice(vals)], [o])
+                at = onnx.AttributeProto()
+                at.name = "alpha"
                 at.type = onnx.AttributeProto.FLOAT
-                n.attribute.append(at)
-            nodes.append(n)
-            cur = o
-        out = nm.new()
-        nodes.append(H.make_node("Neg", [cur], [out]))
-        fp = H.make_function("this", f"af{i}", [x], [out], nodes, [H.make_opsetid("", GEN.OPSET)], attributes=attrs)
-        meta = {"scheme": nm.scheme, "flags": ["attr_fn"] + (["attr_clash"] if clash else []), "refusal": None, "src": "attrfn", "tie_only": True}
-        cases.append(case_of_function(fp, [(TP.FLOAT, [3])], [(TP.FLOAT, [3])], [], meta))
+                at.ref_attr_name = a
+                nd.attribute.append(at)
+            elif r < 0.8:
+                nd = H.make_node(rng.choice(["Mul", "Add", "Sub"]), [rng.choice(vals), rng.choice(vals)], [o])
+            else:
+                nd = H.make_node(rng.choice(["Neg", "Tanh", "Abs"]), [rng.choice(vals)], [o])
+            nodes.append(nd)
+            vals.append(o)
+        # every value feeds the result, with distinct weights so that aliasing is visible
+        acc = vals[1]
+        for k, v in enumerate(vals[2:]):
+            o = fresh()
+            w = fresh()
+            nodes.append(H.make_node("Constant", [], [w], value=H.make_tensor("value", TP.FLOAT, [], [float(k + 2)])))
+            o2 = fresh()
+            nodes.append(H.make_node("Mul", [v, w], [o2]))
+            nodes.append(H.make_node("Add", [acc, o2], [o]))
+            acc = o
+        fp = H.make_function("this", f"af{i}", [x], [acc], nodes, [H.make_opsetid("", GEN.OPSET)], attributes=attrs)
+        used_attrs = {at.ref_attr_name for nd in nodes for at in nd.attribute if at.ref_attr_name}
+        call_attrs = {a: rng.choice([0.5, 1.5, 2.0, 0.25]) for a in attrs if a in used_attrs}
+        call_attrs.update({a: 1 for a in attrs if a not in used_attrs})  # unused attribute parameters default to INT
+        meta = {"scheme": "attrfn", "flags": ["attr_fn"] + (["attr_clash"] if clashy else []), "refusal": None, "src": "attrfn"}
+        c = case_of_function(fp, [(TP.FLOAT, [3])], [(TP.FLOAT, [3])], [], meta)
+        c["call_attrs"] = call_attrs
+        wm = wrap_function(fp, c["in_types"], c["out_types"], call_attrs)
+        c["feeds"] = GEN.feeds_for(wm, rng, 3)
+        cases.append(c)
     return cases
 
 
@@ -659,6 +707,15 @@ def witnesses() -> list[tuple[str, dict, dict]]:
     # a value whose cleaned name is the alias of the opset module
     m = _mk([H.make_node("Relu", ["x"], ["opset18"]), H.make_node("Neg", ["opset18"], ["y"])], [f3], [y3])
     out.append(("C13-OPSET-NAME", case_of_model(m, [{"x": X}], {"refusal": None, "flags": ["witness"]}), dict(base)))
+    # FunctionProto input whose Python name equals an attribute parameter (here through rename=True: input -> v1)
+    nd = H.make_node("Elu", ["X"], ["y"])
+    at = onnx.AttributeProto()
+    at.name, at.type, at.ref_attr_name = "alpha", onnx.AttributeProto.FLOAT, "v2"
+    nd.attribute.append(at)
+    fp = H.make_function("this", "af_w", ["X"], ["y"], [nd], [H.make_opsetid("", GEN.OPSET)], attributes=["v2"])
+    cw = case_of_function(fp, [(TP.FLOAT, [3])], [(TP.FLOAT, [3])], [{"in0": X}], {"refusal": None, "flags": ["witness"]})
+    cw["call_attrs"] = {"v2": 0.5}
+    out.append(("C13-ATTR-INPUT-CLASH", cw, dict(base, rename=True)))
     # If whose outputs are never used
     tb = H.make_graph([H.make_node("Neg", ["x"], ["k1"])], "t", [], [H.make_tensor_value_info("k1", TP.FLOAT, [3])])
     eb = H.make_graph([H.make_node("Abs", ["x"], ["k2"])], "e", [], [H.make_tensor_value_info("k2", TP.FLOAT, [3])])
@@ -786,7 +843,7 @@ def _main(run: core.Run, ctx: Ctx, audit: dict) -> None:
     # 3. generated protos
     n_direct = run.size(150, 1200) * scale
     n_script = run.size(40, 300) * scale
-    n_attr = run.size(12, 80) * scale
+    n_attr = run.size(40, 300) * scale
     k_opts_tie = 16
     k_oracle = run.size(16, 16)
     cases = gen_direct(rng, n_direct)
